@@ -23,7 +23,7 @@ CHECKS = {
    text="Every mutator of ObservableVector and of the transaction with every in-range argument and with out-of-range indices len, len+1, len+2 (under catch_unwind: must panic, contents unchanged, nobody notified), depth 4 (quick) / 5 (thorough) from initial lengths 0..3, compared call by call with a plain Vec model (return values and contents). Traversal: every decision vector keep/set/remove/set-then-remove/stop over vectors of length 0..4 (5 thorough) through for_each and entries(), directly and inside a transaction: each element visited once in order, index() equals the current position, removal does not skip the successor, contents and emitted diffs equal the model's.",
    note="imbl's own panics count as panics of the mutator"),
  "C09": dict(design="5 (C09)", tech=SEQ,
-   text="Head, Tail and Skip, each with a static limit 0..4, a purely dynamic limit and a dynamic limit with initial value 0..4, fed by an eyeball Observable (subscribe / subscribe_reset) or a queue that delivers every announced value; plain and batched subscriber; capacities 16 and 1 (Reset from lag); eager and manual polling; initial vectors of length 0..3. Every sequence of source mutators, transactions, limit announcements 0..5 and polls to depth 3 (quick) / 4 (thorough), plus limit-source and vector drops on a reduced alphabet to depth 4/5. A transparent tap below the adapter gives one view check per input-item boundary and per Pending against first/last/all-but-first of the input replica under the limit the adapter has seen; at Pending the limit must be the latest announced and the input replica the live vector; every diff must be applicable; the stream ends only after the source has ended, and once the source has ended it hands out what it still holds and ends (never Pending again).",
+   text="Head, Tail and Skip, each with a static limit 0..4, a purely dynamic limit and a dynamic limit with initial value 0..4, fed by an eyeball Observable (subscribe / subscribe_reset) or a queue that delivers every announced value and, unlike a fused stream, records being polled again after its end (reported: found repo fix 724d97a); plain and batched subscriber; capacities 16 and 1 (Reset from lag); eager and manual polling; initial vectors of length 0..3. Every sequence of source mutators, transactions, limit announcements 0..5 and polls to depth 3 (quick) / 4 (thorough), plus limit-source and vector drops on a reduced alphabet to depth 4/5. A transparent tap below the adapter gives one view check per input-item boundary and per Pending against first/last/all-but-first of the input replica under the limit the adapter has seen; at Pending the limit must be the latest announced and the input replica the live vector; every diff must be applicable; the stream ends only after the source has ended, and once the source has ended it hands out what it still holds and ends (never Pending again).",
    note="one open finding (F5, dynamic Tail limit decrease, pinned by a repository test) is recognised by its exact signature; subscriber-stream faults are C05-C08's business and counted as foreign"),
  "C10": dict(design="5 (C10)", tech=SEQ,
    text="Filter and FilterMap (predicate key != 0, every pass/fail pattern of the initial vector up to length 3 and of every inserted item), plain and batched, capacities 16, 2 and 1 so that Resets including Resets to all-rejected contents occur, eager and manual polling; every sequence to depth 3 (quick) / 4 (thorough) on the full alphabet and 5/6 on a reduced one. Checked at every input-item boundary and every Pending: view == passing items (mapped) of the input, in order; diffs applicable; end of stream exactly with the source.",
@@ -56,7 +56,7 @@ CHECKS = {
    text="Nine hand-written two-/three-thread programs on clones of one SharedObservable (set||set, update||update||get, set_if_not_eq twice, read guard vs set, write guard vs get/next_now, writer vs subscriber thread, subscribe vs set, next_now vs set, next_ref_now/get vs two sets) plus generated ones - every unordered pair of {set(1), set(2), update, set_if_not_eq, take, get, write-guard double set} on two threads (all 2-against-1 triples in the thorough tier), and every subscriber-side sequence of length <= 2 over {next_now, next_ref_now, poll next, get, read} against one or two increments - explored over every interleaving (bound 3 quick, unbounded thorough); recorded invocation/response histories are checked by brute force against the sequential register specification, plus direct invariants (no lost increment, exactly one winner, monotone subscriber). The guard-exclusion facts are additionally enumerated sequentially with try_read/try_write probes under every guard kind.",
    note="histories have <= 4 operations; loom's RwLock has no writer preference"),
  "C16": dict(design="4 (C16)", tech=SEQ,
-   text="The C01-C04 sequential sweeps (values, wake-ups, handle histories, guard exclusion; depth 3-4 quick, 4-5 thorough) are run on Observable::new_async / SharedObservable::new_async and Subscriber<_, AsyncLock> through the same token language against the same reference model as the sync flavour; every async call is polled by a hand-rolled executor and must complete on its first poll when no guard is held. Second half: guard tasks parked on harness gates while holding a write or read guard, with set / set_if_not_eq / get / subscriber next() tasks queued behind them; tokens spawn, poll, open-gate, cancel and settle (poll woken tasks until quiescent) to depth 4-6 (quick) / 5-7: exclusion, results at completion order, and no task may stay pending once every gate is open and no woken waker is left.",
+   text="The C01-C04 sequential sweeps (values, wake-ups, handle histories, guard exclusion; depth 3-4 quick, 4-5 thorough) are run on Observable::new_async / SharedObservable::new_async and Subscriber<_, AsyncLock> through the same token language against the same reference model as the sync flavour; every async call is polled by a hand-rolled executor and must complete on its first poll when no guard is held. Second half: guard tasks parked on harness gates while holding a write or read guard, with set / set_if_not_eq / get / subscriber next() tasks queued behind them; tokens spawn, poll, open-gate, cancel and settle (poll woken tasks until quiescent) to depth 4-6 (quick) / 5-7: exclusion, results at completion order, and no task may stay pending once every gate is open and no woken waker is left. Subscribers outlive their tasks: a cancelled next() / next_ref() / stream-poll future leaves its subscriber behind, which is polled again at the next settle and must still deliver whatever it had not handed out (sweep c16-cancelled-subscriber-futures, depth 7/8, found repo fix 950b7f6).",
    note="thread-level schedules of the async flavour are out of reach (tokio is not under loom); tokio's RwLock/semaphore trusted"),
  "C19": dict(design="4 (C19)", tech=SEQ,
    text="After every token of every handle history (clone, subscribe, subscribe_reset, downgrade, weak clone, upgrade, into_shared, subscriber clone, every drop; up to 3 handles, 3 subscribers, 2 weak references; depth 4 quick / 5 thorough) observable_count, subscriber_count (both observable kinds), strong_count and weak_count are compared with the model, for both lock flavours.",
